@@ -14,10 +14,17 @@ Record mon6 := {
   x_cpub : list (N * N);        (* client QoS 1 PUBLISHes forwarded to the broker: message ID, until when the
                                    gateway waits for the broker's PUBACK *)
   x_csub : list (N * N);        (* client SUBSCRIBEs forwarded: message ID, until when *)
-  x_bpub : list (N * N * N)     (* broker QoS 1/2 PUBLISHes written to the client: message ID, QoS, until when
+  x_bpub : list (N * N * N);    (* broker QoS 1/2 PUBLISHes written to the client: message ID, QoS, until when
                                    the gateway waits for the client's PUBACK / PUBREC *)
+  x_breg : list (N * N);        (* broker QoS 1/2 PUBLISHes received: message ID, until when their exchange (REGISTER
+                                   step included) can be in progress - used to recognise interference only *)
+  x_csup : list N;              (* IDs of client exchanges in progress that superseded an earlier client exchange with
+                                   the same ID which had not finished *)
+  x_cint : list N;              (* IDs of client exchanges in progress during whose life a broker exchange used the same ID *)
+  x_bint : list N               (* IDs of broker exchanges in progress during whose life a client exchange used the same ID *)
 }.
-Definition mon6_init : mon6 := {| x_cpub := []; x_csub := []; x_bpub := [] |}.
+Definition mon6_init : mon6 := {| x_cpub := []; x_csub := []; x_bpub := []; x_breg := []; x_csup := []; x_cint := []; x_bint := [] |}.
+Definition memN (i : N) (l : list N) : bool := existsb (N.eqb i) l.
 
 Definition live2 (t : N) (l : list (N * N)) : list (N * N) := List.filter (fun e => t <? snd e) l.
 Definition live3 (t : N) (l : list (N * N * N)) : list (N * N * N) := List.filter (fun e => t <? snd e) l.
@@ -33,7 +40,10 @@ Definition is_sn_puback_for (m : N) (p : packet) := match p with Puback _ i _ =>
 Definition is_sn_suback_for (m : N) (p : packet) := match p with Suback _ _ i _ => i =? m | _ => false end.
 
 (* failures: clause c when an exchange of the other direction with the same message ID is in
-   progress (the interference the property is about), clause 10 + c otherwise *)
+   progress or was started (and possibly finished) during the life of this exchange (the
+   interference the property is about), clause 20 + c when a client exchange superseded an earlier,
+   unfinished client exchange with the same ID (whose end then removes the newer one's state),
+   clause 10 + c otherwise *)
 Definition mon6_step (cfg : gw_cfg) (s : gw_state) (ev : gw_event) (os : list obs) (m : mon6) : mon6 * list N :=
   let t0 := gw_now s in
   let ms := mqs os in
@@ -41,21 +51,23 @@ Definition mon6_step (cfg : gw_cfg) (s : gw_state) (ev : gw_event) (os : list ob
   let cpub := live2 t0 (x_cpub m) in
   let csub := live2 t0 (x_csub m) in
   let bpub := live3 t0 (x_bpub m) in
+  let breg := live2 t0 (x_breg m) in
   let awake := running s && awake_for_output s in
   let cls (other : bool) (c : N) : list N := [if other then c else 10 + c] in
+  let cls2 (other : bool) (i c : N) : list N := [if other then c else if memN i (x_csup m) then 20 + c else 10 + c] in
   let fails :=
     if negb (running s) then [] else
     match ev with
     | EvMq (MqPuback i) =>
-      if has2 i cpub && awake && negb (existsb (is_sn_puback_for i) ps) then cls (any3 i bpub) 1 else []
+      if has2 i cpub && awake && negb (existsb (is_sn_puback_for i) ps) then cls2 (any3 i bpub || has2 i breg || memN i (x_cint m)) i 1 else []
     | EvMq (MqSuback i codes) =>
-      if has2 i csub && awake && (len codes =? 1) && negb (existsb (is_sn_suback_for i) ps) then cls (any3 i bpub) 2 else []
+      if has2 i csub && awake && (len codes =? 1) && negb (existsb (is_sn_suback_for i) ps) then cls2 (any3 i bpub || has2 i breg || memN i (x_cint m)) i 2 else []
     | EvSn dg =>
       match read_dgram dg with
       | Ok (Puback _ i rc) =>
-        if has3 i 1 bpub && (rc =? RC_ACCEPTED) && negb (existsb (is_mq_puback_for i) ms) then cls (has2 i cpub || has2 i csub) 3 else []
+        if has3 i 1 bpub && (rc =? RC_ACCEPTED) && negb (existsb (is_mq_puback_for i) ms) then cls (has2 i cpub || has2 i csub || memN i (x_bint m)) 3 else []
       | Ok (Pubrec i) =>
-        if has3 i 2 bpub && negb (existsb (is_mq_pubrec_for i) ms) then cls (has2 i cpub || has2 i csub) 4 else []
+        if has3 i 2 bpub && negb (existsb (is_mq_pubrec_for i) ms) then cls (has2 i cpub || has2 i csub || memN i (x_bint m)) 4 else []
       | _ => []
       end
     | _ => []
@@ -63,9 +75,14 @@ Definition mon6_step (cfg : gw_cfg) (s : gw_state) (ev : gw_event) (os : list ob
   (* ---- update *)
   let cpub1 := match ev with EvMq (MqPuback i) => del2 i cpub | _ => cpub end in
   let csub1 := match ev with EvMq (MqSuback i _) => del2 i csub | _ => csub end in
-  let bpub1 := match ev_packet ev with
-               | Some (Puback _ i _) | Some (Pubrec i) => del3 i bpub
-               | _ => bpub end in
+  (* a broker PUBLISH that reuses the message ID of its own exchange in progress supersedes it (the
+     property speaks of exchanges of the OTHER side and of finished or superseded ones) *)
+  let bpub1 := match ev with
+               | EvMq (MqPublish _ _ _ _ i _) => del3 i bpub
+               | _ => match ev_packet ev with
+                      | Some (Puback _ i _) | Some (Pubrec i) => del3 i bpub
+                      | _ => bpub end
+               end in
   let is_sn := match ev with EvSn _ => true | _ => false end in
   let cpub2 := if is_sn then
                  cpub1 ++ (ms ≫= (fun p => match p with MqPublish _ 1 _ _ i _ => [(i, t0 + retry_delay cfg)] | _ => [] end))
@@ -85,7 +102,17 @@ Definition mon6_step (cfg : gw_cfg) (s : gw_state) (ev : gw_event) (os : list ob
                                              if (q =? 1) || (q =? 2) then [(i, q, t0 + (retry_count cfg + 1) * retry_delay cfg)] else []
                                            | _ => [] end))
                else bpub1 in
-  ({| x_cpub := cpub2; x_csub := csub2; x_bpub := bpub2 |}, fails).
+  let breg2 := match ev with
+               | EvMq (MqPublish _ q _ _ i _) =>
+                 if (q =? 1) || (q =? 2) then del2 i breg ++ [(i, t0 + 2 * (retry_count cfg + 1) * retry_delay cfg)] else breg
+               | _ => breg end in
+  let newc := if is_sn then ms ≫= (fun p => match p with MqPublish _ 1 _ _ i _ => [i] | MqSubscribe i _ _ => [i] | _ => [] end) else [] in
+  let csup2 := List.filter (fun i => has2 i cpub2 || has2 i csub2)
+                           (x_csup m ++ List.filter (fun i => has2 i cpub1 || has2 i csub1) newc) in
+  let cint0 := List.filter (fun i => has2 i cpub1 || has2 i csub1) (x_cint m) in
+  let bint0 := List.filter (fun i => any3 i bpub1) (x_bint m) in
+  let both := List.filter (fun i => any3 i bpub2 || has2 i breg2) (map fst (cpub2 ++ csub2)) in
+  ({| x_cpub := cpub2; x_csub := csub2; x_bpub := bpub2; x_breg := breg2; x_csup := csup2; x_cint := cint0 ++ both; x_bint := bint0 ++ both |}, fails).
 
 Fixpoint mon6_run (cfg : gw_cfg) (s : gw_state) (m : mon6) (evs : list gw_event) : list N :=
   match evs with
